@@ -36,9 +36,9 @@ type FrameOb struct {
 }
 
 var framePropKinds = map[string][]string{
-	"C18": {"global", "noconc", "pkgvar", "readonly", "noretain"},
+	"C18": {"global", "noconc", "pkgvar", "readonly", "noretain", "noshare"},
 	"C17": {"global", "nondet", "pkgvar"},
-	"C12": {"global", "readonly", "replaces", "init", "noretain"},
+	"C12": {"global", "readonly", "replaces", "init", "noretain", "noshare"},
 }
 
 func frameObligations(w *World, prop string) []*FrameOb {
@@ -270,6 +270,59 @@ func frameObligations(w *World, prop string) []*FrameOb {
 			}
 			out = append(out, fo)
 		}
+	}
+	if want["noshare"] {
+		// a stored slice is emptied by re-slicing itself (x = x[:0]); emptying it by re-slicing ANOTHER stored slice
+		// (x = y[:0]) makes the two share one backing array, so that appending to one overwrites the other - state
+		// leaks between work lists, between results, or between one call and the next on the same object
+		for _, k := range keys {
+			fd := w.prog.Funcs[k]
+			if fd.Body == nil || strings.HasPrefix(fd.Name.Name, "Test") {
+				continue
+			}
+			var sites []string
+			ast.Inspect(fd.Body, func(n ast.Node) bool {
+				as, ok := n.(*ast.AssignStmt)
+				if !ok || len(as.Lhs) != len(as.Rhs) {
+					return true
+				}
+				for i := range as.Rhs {
+					se, ok := ast.Unparen(as.Rhs[i]).(*ast.SliceExpr)
+					if !ok || se.Low != nil || se.High == nil {
+						continue
+					}
+					tv, ok := info.Types[se.High]
+					if !ok || tv.Value == nil || tv.Value.String() != "0" {
+						continue
+					}
+					base := ast.Unparen(se.X)
+					lhs := ast.Unparen(as.Lhs[i])
+					if _, isIdent := lhs.(*ast.Ident); isIdent {
+						if id, ok := base.(*ast.Ident); !ok || info.Uses[id] == nil {
+							continue
+						} else if _, isVar := info.Uses[id].(*types.Var); !isVar {
+							continue
+						}
+					}
+					bs, ls := exprString(w.prog.Fset, base), exprString(w.prog.Fset, lhs)
+					if bs != ls {
+						// a plain local receiving an emptied copy of something else is the append-to-scratch idiom only when the
+						// source is itself a fresh local; stored slices (fields, elements, pointer targets) are flagged
+						_, lhsLocal := lhs.(*ast.Ident)
+						_, baseLocal := base.(*ast.Ident)
+						if lhsLocal && baseLocal {
+							continue
+						}
+						sites = append(sites, ls+" = "+bs+"[:0] at "+w.eff.pos(as))
+					}
+				}
+				return true
+			})
+			if len(sites) > 0 {
+				out = append(out, &FrameOb{Name: "frame.noshare[" + k + "]", OK: false, Detail: "a stored slice is emptied by re-slicing a different slice, so the two share one backing array: " + strings.Join(sites, "; "), Sites: sites})
+			}
+		}
+		out = append(out, &FrameOb{Name: "frame.noshare[package]", OK: true, Detail: "every slice that is emptied in place is re-sliced from itself"})
 	}
 	if want["replaces"] {
 		for _, fc := range w.prog.C.Funcs {
